@@ -9,6 +9,36 @@ CLAIMED = {
    text="TLC checks reflexivity, transitivity, least/greatest element, variance of every constructor, union upper-bound / below-exactly, meet lower-bound and value soundness on a transcription of the relation over a universe closed under all constructors to depth 2; every ordered pair of that universe, every join/meet of the representatives and every (value, type) pair is then replayed against simplesl::variable::Type (built by constructors and by Type::from_str, several hash orders). The implementation is therefore shown equal to a relation on which the laws were model-checked, exhaustively within the universe.",
    design_ref="§3.1, §6 C10",
    note="bounded universe (522 types, 98 values); trusted: TLC, harness wire conversion; laws beyond the universe are not claimed"),
+ "C04": dict(
+   technique="TLA+ definitional semantics (spec/Lang.tla) in which hiding a constant is the identity; TLC enumerates every literal/hidden twin (MC_C04.tla) with the parse-time errors the specification permits per twin; each twin replayed against the implementation; recorded events trace-validated",
+   text="TLC enumerates, for every construct, each of the 2^k literal/hidden choices for its operand positions over boundary operands and five contexts (4 088 twins), checks on the specification that all twins of a program have one meaning and never go wrong, and emits that meaning (value, log, error) plus the set of parse-time errors permitted for the twin. The harness renders each twin, runs the real parser/optimiser/interpreter and requires exactly the specification's outcome or a permitted parse-time error. The oracle is the specification's evaluator, so 'both twins wrong in the same way' is caught too.",
+   design_ref="§3.6, §6 C04",
+   note="bounded: operand boundary sets and contexts of MC_C04.tla; machine ints < 2^30 (others inconclusive); trusted: TLC, renderer; one named deviation (closure-creation folding) documented in DESIGN §10"),
+ "C06": dict(
+   technique="TLA+ definitional semantics with environments as binding sequences and closures capturing by value (spec/Lang.tla); TLC checks ScopeDiscipline on the scoping suites (MC_C06.tla); every case replayed against the implementation",
+   text="TLC evaluates the shadowing grid (every scoping construct x kind of inner declaration x hidden/constant outer binding, observed before/inside/after), capture-then-redeclare, shared captured cells, closures returned and passed, recursion by declared name through every call path and iterator operator, iterator bodies that declare the consumer's names under every consumer, and modules, and checks that the machine yields the documented result for each; the implementation must yield the same value for each rendered program.",
+   design_ref="§3.6, §6 C06",
+   note="bounded to the 147 programs of MC_C06.tla (each family exhaustive over its grid); imports of files are exercised by C03, not here"),
+ "C07": dict(
+   technique="TLA+ definitional semantics (spec/Lang.tla); TLC checks LeftToRightOnce on every construct with >= 2 sub-expressions whose operands are logging ticks (MC_C07.tla); each case replayed and its log compared",
+   text="Operands are tick calls t(i, v) numbered in textual order (or literals, so that folding applies around them); TLC checks on the specification that the log equals the increasing list of the ticks the documentation says are evaluated (short-circuit, chosen branch, match candidates until first match, assignment value computed after the right operand ran), at top level and inside a function; the implementation must produce the same value and the same log for all 238 programs.",
+   design_ref="§3.6, §6 C07",
+   note="bounded to the constructs/operand forms of MC_C07.tla; evaluation is observed through writes to a log cell"),
+ "C11": dict(
+   technique="two formulations inside the TLA+ specification (closure-level machine vs list-level sequence definitions) checked equal by TLC (IterLaws, MC_C11.tla); cases with the predicted result and pull/callback log replayed against the implementation",
+   text="For every element sequence x source (array-derived / user-written logging closure) x pipeline of <= 2 lazy stages x consumer, TLC checks that the abstract machine (closures calling closures through the iterator protocol) agrees with the documentation's sequence definitions on the result and on the log of pulls and callback applications (each element once and in order, laziness, early exit of $&& / $||); the implementation must produce the same result and log for each of the 1 295 programs.",
+   design_ref="§3.3, §3.6, §6 C11",
+   note="the value an exhausted iterator carries is unspecified and not compared (known findings about its type belong to C01); sequences up to length 3"),
+ "C12": dict(
+   technique="TLA+ definitional semantics (spec/Lang.tla); TLC checks NoStuck, DeadNeverLogged and ReturnWins on all nestings of control constructs to depth 2 (3 sampled) with exits at every leaf (MC_C12.tla); every program replayed, marker log and results compared",
+   text="TLC generates every nesting of if / if-set / match (value, type, default arms) / block / module / loop / while / while-set / for inside a function whose union-typed parameter receives a value of every member type, with break/continue/return at every leaf and markers in every branch, checks the control laws on the specification and emits results and marker logs; the implementation must reproduce them exactly (3 158 programs at depth 2).",
+   design_ref="§3.6, §6 C12",
+   note="at depth >= 2 one of the two sub-positions of each construct is a leaf; quick tier = every 3rd body"),
+ "C13": dict(
+   technique="TLA+ definitional semantics with cells as identities (spec/Lang.tla); TLC checks AliasesAgree, CellTyped, AssignYieldsStored, FailureLeavesContent on assignment histories (MC_C13.tla); histories replayed; every recorded write event validated by the trace specification Trace_Sound.tla",
+   text="Histories of up to two assignments over every declared cell type, written through every kind of alias (binding, array element, struct field, cell in a cell, function parameter) with all 12 operators and failing operands; after every step the cell is read through all aliases. TLC checks the cell laws on the specification; the implementation must reproduce every read tuple, every assignment value and the final content (also after a failing update). In addition every write event recorded by the hook under the cell's lock (op, old, rhs, new) is consumed by one action of the trace specification: new = op(old, rhs) by the specification's operator, new in the declared type.",
+   design_ref="§3.6, §3.7, §6 C13",
+   note="machine ints < 2^30; the order of writes to one cell is not re-validated from the trace (the replayed histories cover it)"),
 }
 
 NOT_YET = {}
